@@ -98,6 +98,9 @@ pub struct SimStats {
     pub unfreezes: u64,
     pub probations: u64,
     pub blocked_while_frozen: u64,
+    /// read-modify-write operations on a word-sized atomic whose new value is smaller than the old one
+    #[serde(default)]
+    pub counter_wraps: u64,
 }
 
 #[derive(Clone, Debug, Serialize, Deserialize)]
@@ -866,6 +869,9 @@ impl vh::Hook for SimHook {
         st.stats.atomic_ops += 1;
         let is_write = matches!(op.kind, OpKind::Store | OpKind::Rmw);
         let is_read = matches!(op.kind, OpKind::Load | OpKind::Rmw | OpKind::CasFail);
+        if op.kind == OpKind::Rmw && op.width == 8 && new < old {
+            st.stats.counter_wraps += 1;
+        }
         // was the value read the latest one? (stale loads read an older version)
         let mut read_version = st.locs[loc].version;
         if op.kind == OpKind::Load && old != st.locs[loc].value {
@@ -1179,6 +1185,10 @@ fn finish(me: usize) {
         Some(n) => SH.current.store(n, O::Release),
         None => SH.abort.store(true, O::SeqCst),
     }
+}
+
+pub fn run_active() -> bool {
+    SH.state.try_lock().map(|g| g.is_some()).unwrap_or(true)
 }
 
 pub fn aborted() -> bool {
